@@ -16,14 +16,18 @@ from unittest import mock
 
 from twisted.internet.task import Clock, Cooperator
 from zope.interface import implementer
+from twisted.internet.interfaces import ITransport, IConsumer
 
 from wormhole import _interfaces
 from wormhole.eventual import EventualQueue
 from wormhole._dilation import manager as dm
-from wormhole._dilation.connection import Ping, Pong
+from wormhole._dilation import connector as dconn
+from wormhole._dilation.connection import Ping, Pong, KCM, encode_record, T_PING
+from wormhole._dilation.encode import to_be4, from_be4
 
 from ..core import Result
 from ..util import automat_state
+from ..fakes import ToyNoise
 
 ID = "C16"
 PROP_MODULES = ["WV.Props.C16"]
@@ -95,17 +99,89 @@ class _Conn:
         pass
 
 
+@implementer(ITransport, IConsumer)
+class _RTransport:
+    """in-memory transport of a REAL DilatedConnectionProtocol (real world): records what the protocol writes,
+    `loseConnection()` only notes the request — the case decides when the close is reported (`connectionLost`)"""
+
+    def __init__(self, world, cid):
+        self.world = world
+        self.cid = cid
+        self.closed = False          # connectionLost() has been delivered to the protocol
+        self.buf = b""
+        self.frames = 0
+        self.peer = ToyNoise()       # the follower's end of the Noise session
+        self.producer = None
+
+    def write(self, data):
+        if self.closed:
+            return
+        self.buf += bytes(data)
+        # prologue first ("...\n\n"), then length-prefixed frames; frame 0 is the Noise handshake
+        if self.frames == 0 and b"\n\n" in self.buf and not self.buf.startswith(b"\x00"):
+            i = self.buf.index(b"\n\n") + 2
+            self.buf = self.buf[i:]
+            self.frames = 1
+        while self.frames >= 1 and len(self.buf) >= 4:
+            n = from_be4(self.buf[:4])
+            if len(self.buf) < 4 + n:
+                break
+            body, self.buf = self.buf[4:4 + n], self.buf[4 + n:]
+            self.frames += 1
+            if self.frames > 2:      # after the handshake frame: records under the toy AEAD (16-byte tag)
+                rec = body[:-16]
+                if rec[:1] == T_PING:
+                    self.world.on_ping(self.cid, rec[1:5])
+
+    def writeSequence(self, seq):
+        for x in seq:
+            self.write(x)
+
+    def loseConnection(self):
+        f = sys._getframe(1)
+        caller = sys._getframe(2).f_code.co_name if f.f_code.co_name == "disconnect" else f.f_code.co_name
+        self.world.on_disconnect(self, caller)
+
+    def registerProducer(self, p, streaming):
+        self.producer = p
+
+    def unregisterProducer(self):
+        self.producer = None
+
+    def pauseProducing(self):
+        pass
+
+    def resumeProducing(self):
+        pass
+
+    def stopProducing(self):
+        pass
+
+    def getPeer(self):
+        return "peer"
+
+    def getHost(self):
+        return "host"
+
+
+def _frame(b):
+    return to_be4(len(b)) + b
+
+
 class World:
-    def __init__(self, T, leader):
+    def __init__(self, T, leader, real=False):
         self.T = T
         self.leader = leader
+        self.real = real             # real Connector + DilatedConnectionProtocol instead of stand-ins
+        self.closed = set()          # connections whose transport close was delivered (connectionLost)
+        self.protos = {}             # cid -> real protocol
         self.clock = Clock()
         self.eq = EventualQueue(self.clock)
         self.send = _Send()
         my, their = ("ff" * 8, "00" * 8) if leader else ("00" * 8, "ff" * 8)
         self.their = their
         self.m = dm.Manager(self.send, my, None, self.clock, self.eq, Cooperator(scheduler=self.eq.eventually),
-                            ["ged"], T * TICK, {})
+                            ["ged"], T * TICK, {}, no_listen=True)
         self.m.got_dilation_key(b"k" * 32)
         self.conns = []
         self.ids = []            # canonical index -> real ping id
@@ -130,9 +206,12 @@ class World:
 
     def on_record(self, conn, r):
         if isinstance(r, Ping):
-            self.scan_pings()
-            idx = self.ids.index(r.ping_id) if r.ping_id in self.ids else -1
-            self.wire.append((conn.cid, idx, self.now()))
+            self.on_ping(conn.cid, r.ping_id)
+
+    def on_ping(self, cid, ping_id):
+        self.scan_pings()
+        idx = self.ids.index(ping_id) if ping_id in self.ids else -1
+        self.wire.append((cid, idx, self.now()))
 
     def on_disconnect(self, conn, caller):
         rec = (conn.cid, self.now())
@@ -142,6 +221,8 @@ class World:
             self.drops.append(rec)
         elif caller == "abandon_connection":
             self.abandons.append(rec)
+        elif self.real:
+            pass     # the Connector closing losers / a protocol error: not the monitor's doing
         else:
             self.other_disc.append(rec + (caller,))
 
@@ -158,7 +239,7 @@ class World:
     def cid_of(self, c):
         if c is None:
             return "-"
-        return str(c.cid) if isinstance(c, _Conn) else "?"
+        return str(getattr(c, "cid", "?"))
 
     def summary(self):
         m = self.m
@@ -194,9 +275,62 @@ class World:
         except Exception as e:   # the real code raised: that is a result, not a harness failure
             return type(e).__name__
 
-    def op(self, o):
+    def real_made(self, variant):
+        """what the network + the follower do to give the Leader's real Connector a connection: TCP connect, prologue,
+        Noise handshake, KCM; the Connector then selects it one eventual turn later.  `variant`: None, "dead" (the
+        transport closes in that very turn, between KCM and select()), "prekcm" (it closes before the KCM)."""
+        m = self.m
+        cid = len(self.conns)
+        connector = m._connector
+        f = dconn.OutboundConnectionFactory(connector, None, "conn%d" % cid)
+        p = f.buildProtocol(None)
+        if variant == "prekcm":
+            cid = -1                 # never offered to the Manager: not numbered
+        t = _RTransport(self, cid)
+        p.cid = cid
+        if cid >= 0:
+            self.conns.append(t)
+            self.protos[cid] = p
+        p.makeConnection(t)
+        # Connector._connect's `_connected` callback
+        connector._pending_connections.add(p)
+        p.when_disconnected().addCallback(connector._pending_connections.discard)
+        p.dataReceived(dconn.PROLOGUE_FOLLOWER + _frame(t.peer.write_message()))
+        if variant == "prekcm":
+            t.closed = True
+            p.connectionLost(None)
+            return
+        p.dataReceived(_frame(t.peer.encrypt(encode_record(KCM()))))
+        if variant == "dead":
+            self.close_transport(cid, flush=False)
+
+    def close_transport(self, cid, flush=True):
+        t = self.conns[cid]
+        if t.closed:
+            return
+        t.closed = True
+        self.closed.add(cid)
+        self.protos[cid].connectionLost(None)
+        if flush:
+            self.eq.flush_sync()
+
+    def op(self, o, closed=None):
         m = self.m
         k = o[0]
+        if self.real:
+            if k == "made":
+                return self.call(lambda: self.real_made(o[1] if len(o) > 1 else None))
+            if k == "lost":
+                cid = closed if closed is not None else getattr(m._connection, "cid", None)
+                if cid is None:
+                    return None
+                return self.call(lambda: self.close_transport(cid))
+            if k == "pong":
+                idx = o[1]
+                pid = self.ids[idx] if idx < len(self.ids) else b"\xfe\xfd" + (idx % 65536).to_bytes(2, "big")
+                p = m._connection
+                t = self.conns[p.cid]
+                return self.call(lambda: p.dataReceived(_frame(t.peer.encrypt(encode_record(Pong(pid))))))
         if k == "start":
             # got_wormhole_versions() is the caller of start() in the real flow
             return self.call(lambda: m.start())
@@ -207,6 +341,10 @@ class World:
             self.conns.append(c)
             return self.call(lambda: m.connector_connection_made(c))
         if k == "lost":
+            if closed is not None:
+                self.closed.add(closed)
+            elif m._connection is not None:
+                self.closed.add(getattr(m._connection, "cid", -1))
             return self.call(lambda: m.connector_connection_lost())
         if k == "stop":
             self.stop_called = True
@@ -253,14 +391,18 @@ class World:
 def run_case(case):
     T = case["T"]
     leader = case["leader"]
+    if case.get("world") == "real":
+        # REAL Connector + DilatedConnectionProtocol (+ _Framer/_Record) under the real Manager; only Noise is the toy AEAD
+        with mock.patch.object(dconn, "build_noise", ToyNoise):
+            return _run(case, T, leader, real=True)
     with mock.patch.object(dm, "Connector", mock.Mock()):
         return _run(case, T, leader)
 
 
-def _run(case, T, leader):
-    w = World(T, leader)
+def _run(case, T, leader, real=False):
+    w = World(T, leader, real=real)
     lines, exp = [f"cfg {T}"], ["ok"]
-    tags = [f"T={T}", "leader" if leader else "follower"]
+    tags = [f"T={T}", "leader" if leader else "follower", "world:real" if real else "world:stand-in"]
     events = []          # oracle's view of the run: (kind, time, data)
     illegal = [None]     # first op the environment was not entitled to
     raised = []          # exceptions out of legal operations
@@ -271,6 +413,7 @@ def _run(case, T, leader):
     seen_wire = [0]
     seen_disc = [0]
     seen_reconnect = [0]
+    nmade = [0]
     expiries = [0]
     paused_expiry = [0]
     late_expiry = [0]
@@ -298,6 +441,7 @@ def _run(case, T, leader):
                     timer=None if (m._timer is None or not m._timer.active()) else m._timer.getTime(),
                     clock_timers=[c.getTime() for c in w.timers()],
                     state=automat_state(m), npings=len(w.ids), stop=w.stop_called, ndrops=len(w.drops),
+                    dead=(m._connection is not None and getattr(m._connection, "cid", -1) in w.closed),
                     tt=automat_state(m._traffic) if m._traffic is not None else None)
 
     def is_legal(o):
@@ -320,7 +464,7 @@ def _run(case, T, leader):
         if k == "reconnect":
             return st in ("CONNECTED", "CONNECTING", "LONELY") and not leader
         if k in ("pong", "pause", "resume"):
-            return w.m._connection is not None
+            return w.m._connection is not None and getattr(w.m._connection, "cid", -1) not in w.closed
         return True
 
     def conn_now():
@@ -347,9 +491,19 @@ def _run(case, T, leader):
         if o[0] == "pong":
             w.scan_pings()
             data = (o[1], o[1] < len(w.ids) and w.ids[o[1]] in w.m._pings_outstanding)
-        err = w.op(o)
+        err = w.op(o, closed=closed)
+        kind = o[0]
         line = f"please {1 if leader else 0}" if o[0] == "please" else " ".join(str(x) for x in o)
-        record(line, err, o[0], data, legal_now)
+        if o[0] == "made" and len(o) > 1:
+            if o[1] == "prekcm":
+                return               # a connection that died before its KCM never reaches the Connector: nothing to compare
+            if o[1] == "dead":
+                # selected and lost within one flush of the eventual queue: the model does `made` then `lost`
+                line, kind = "made+lost", "made+lost"
+                w.reported.add(len(w.conns) - 1)
+            else:
+                line = "made"
+        record(line, err, kind, data, legal_now)
 
     def adv(n):
         """advance n ticks, one line per stretch that ends at a timer deadline"""
@@ -467,11 +621,11 @@ def _run(case, T, leader):
             o = nxt[2]
             if o[0] == "pong":
                 cur = w.m._connection
-                if cur is None or getattr(cur, "cid", None) != o[2]:
+                if cur is None or getattr(cur, "cid", None) != o[2] or o[2] in w.closed:
                     continue     # travelled on a connection that is gone
                 do(["pong", o[1]])
             elif o[0] == "lost":
-                if o[1] in w.reported:
+                if o[1] in w.reported or o[1] in w.closed:
                     continue     # that transport's close has been reported already
                 do(["lost"], closed=o[1])
             elif o[0] == "stall":
@@ -483,7 +637,13 @@ def _run(case, T, leader):
             elif o[0] == "remake":
                 if automat_state(w.m) == "FLUSHING":
                     do(["reconnecting"])
-                    do(["made"])
+                    vs = policy.get("made_variants") if real else None
+                    while True:
+                        v = vs[nmade[0] % len(vs)] if vs else None
+                        nmade[0] += 1
+                        do(["made"] if v is None else ["made", v])
+                        if v != "prekcm":
+                            break
             react(policy, seg_start)
 
     for seg in case["script"]:
@@ -495,6 +655,8 @@ def _run(case, T, leader):
         elif k == "stall":
             stall(seg[1])
         elif k == "lost":
+            if real and conn_now() is None:
+                continue         # real world: there is no transport that could close
             do(["lost"])
             pending[:] = [p for p in pending if p[2][0] not in ("pong", "lost", "pause", "resume")]
         else:
@@ -565,6 +727,13 @@ def oracle(w, events, T, leader, illegal, tags):
             add("timer-without-connection", f"after '{kind}' at tick {t}: no connection in use but a timer is pending for {pend} s")
         if pend and snap["stop"]:
             add("timer-after-stop", f"after '{kind}' at tick {t}: stop() was called but a timer is pending for {pend} s")
+        if snap.get("dead"):
+            dropped_it = any(c == snap["conn"] for c, _ in w.drops)
+            add("no-new-generation" if dropped_it else "dead-connection-in-use",
+                f"T={T} ticks: after '{kind}' at tick {t} the Manager is {snap['state']} and still uses connection {snap['conn']}, "
+                f"whose transport has closed: the loss was never reported, so "
+                + ("the disconnect() at the second expiry changes nothing and no `reconnect` is ever sent"
+                   if dropped_it else "monitoring goes on against a dead connection and no new generation can start"))
         if not leader and (snap["npings"] or pend or snap["ndrops"]):
             add("follower-monitors", f"T={T} ticks: after '{kind}' at tick {t} the follower has registered {snap['npings']} pings, "
                                      f"timers pending for {pend} s, monitor disconnects {w.drops[:snap['ndrops']]}")
@@ -660,10 +829,13 @@ def oracle(w, events, T, leader, illegal, tags):
 SETUP = [["start"], ["please"], ["made"]]
 
 
-def pol(rtt=0, drop_every=0, silent_from=None, loss_delay=None, reconnect_delay=None, rtts=None, pauses=None, stalls=None, silent_until=None):
+def pol(rtt=0, drop_every=0, silent_from=None, loss_delay=None, reconnect_delay=None, rtts=None, pauses=None, stalls=None, silent_until=None,
+        made_variants=None):
     p = dict(rtt=rtt, drop_every=drop_every, silent_from=silent_from, loss_delay=loss_delay, reconnect_delay=reconnect_delay)
     if rtts is not None:
         p["rtts"] = rtts
+    if made_variants is not None:
+        p["made_variants"] = made_variants   # real world: how the peer's next connections fare (None / "dead" / "prekcm")
     if silent_until is not None:
         p["silent_until"] = silent_until   # nothing is answered before this tick of the segment
     if stalls is not None:
@@ -727,6 +899,22 @@ def corpus():
                                                            ["made"], ["run", 4 * T, pol(rtt=1)], ["pause"], ["adv", T], ["stop"], ["resume"],
                                                            ["lost"]]))
         out.append(dict(T=T, leader=False, script=SETUP + [["pause"], ["adv", 2 * T], ["resume"], ["adv", T]]))
+        # REAL Connector + DilatedConnectionProtocol: responsive; silent -> drop -> slow close -> reconnect; the winning
+        # transport closing in the turn between the peer's KCM and select() (first connection, and later ones), before
+        # its KCM, right after select, in mid-interval, after the drop; stop; flow control
+        R = dict(T=T, leader=True, world="real")
+        out.append(dict(R, script=SETUP + [["run", 5 * T, pol(rtt=1)]]))
+        out.append(dict(R, script=SETUP + [["run", 9 * T, pol(rtt=1, silent_from=T + 1, loss_delay=1, reconnect_delay=1)]]))
+        out.append(dict(R, script=[["start"], ["please"], ["made", "dead"], ["adv", 3 * T], ["reconnecting"], ["made"],
+                                   ["run", 4 * T, pol(rtt=1)]]))
+        out.append(dict(R, script=[["start"], ["please"], ["made", "prekcm"], ["made"], ["run", 2 * T + 1, pol(rtt=1)], ["lost"],
+                                   ["adv", 1], ["reconnecting"], ["made", "dead"], ["adv", 2 * T + 1], ["reconnecting"], ["made"],
+                                   ["run", 3 * T, pol(rtt=T - 1)]]))
+        out.append(dict(R, script=SETUP + [["run", 12 * T, pol(rtt=None, loss_delay=T, reconnect_delay=1,
+                                                                made_variants=["dead", "prekcm", None, "dead", None])]]))
+        out.append(dict(R, script=SETUP + [["lost"], ["reconnecting"], ["made"], ["run", T + 1, pol(rtt=1)], ["stop"], ["adv", 1], ["lost"],
+                                           ["adv", 2 * T]]))
+        out.append(dict(R, script=SETUP + [["run", 6 * T, pol(rtt=1, pauses=[[T - 1, 2]], stalls=[[2 * T - 1, 3]])]]))
     # stale / duplicate / unknown pongs
     out.append(dict(T=4, leader=True, script=SETUP + [["adv", 5], ["pong", 0], ["pong", 0], ["pong", 7], ["adv", 2], ["pong", 1],
                                                        ["adv", 12]]))
@@ -767,6 +955,33 @@ def rand_policy(rng, T):
         if rng.random() < 0.8:
             p["reconnect_delay"] = rng.choice([0, 1, T, 3 * T])
     return p
+
+
+def rand_real_case(rng):
+    """legal schedules only (the Connector is real): connections that die before their KCM / between KCM and select /
+    at any later tick, silent or responsive peers, slow closes, stop"""
+    T = rng.choice(INTERVALS)
+    first = rng.choice([None, None, "dead", "prekcm"])
+    script = [["start"], ["please"]] + ([["made"]] if first is None else [["made", first]] + ([["made"]] if first == "prekcm" else []))
+    alive = first != "dead"
+    for _ in range(rng.randrange(1, 4)):
+        if not alive:
+            script += [["adv", rng.randrange(0, 2 * T)], ["reconnecting"]]
+            v = rng.choice([None, None, "dead", "prekcm"])
+            script += [["made"]] if v is None else [["made", v]] + ([["made"]] if v == "prekcm" else [])
+            alive = v != "dead"
+            continue
+        p = rand_policy(rng, T)
+        p["made_variants"] = [rng.choice([None, None, "dead", "prekcm"]) for _ in range(3)] + [None]
+        script.append(["run", rng.randrange(1, 7 * T), p])
+        r = rng.random()
+        if r < 0.3:
+            script.append(["lost"])       # the transport of the connection in use closes now (if there is one)
+            alive = False
+        elif r < 0.4:
+            script += [["stop"], ["run", rng.randrange(0, 2 * T), rand_policy(rng, T)]]
+            break
+    return dict(T=T, leader=True, world="real", script=script)
 
 
 def rand_case(rng, adversarial=False):
@@ -835,7 +1050,7 @@ def cases(rng, tier):
     out = corpus()
     n = 700 if tier == "quick" else 60000
     for i in range(n):
-        out.append(rand_case(rng, adversarial=(i % 5 == 4)))
+        out.append(rand_real_case(rng) if i % 6 == 5 else rand_case(rng, adversarial=(i % 5 == 4)))
     if tier == "thorough":
         out += exhaustive(4)
         out += exhaustive(8)
